@@ -2,11 +2,15 @@
 //! real multiboot2 crates and records projected outcomes as an ndjson trace.
 //! It contains no expected values: the trace is judged by TLC (spec/Trace.tla).
 
+mod alloc_track;
 mod guard;
 mod ops;
 mod out;
 
 use guard::{Arena, Place};
+
+#[global_allocator]
+static GLOBAL: alloc_track::Tracking = alloc_track::Tracking;
 use serde_json::{json, Value};
 use std::fs::{File, OpenOptions};
 use std::io::{BufRead, BufReader, Read, Seek, SeekFrom, Write};
